@@ -542,6 +542,18 @@ fn check(prop: &str, tier: Tier) -> i32 {
             exit = 1;
             // minimise
             let class = fv.class.clone();
+            let mut fv = fv;
+            if !is_crash_class(&class) {
+                if let Some(np) = sc.narrow(&fv.plan, &Violation { class: class.clone(), detail: fv.detail.clone() }) {
+                    let mut st = Stats::default();
+                    if let Err(v2) = run_caught(*sc, &np, &mut st) {
+                        if v2.class == class {
+                            fv.plan = np;
+                            fv.detail = v2.detail;
+                        }
+                    }
+                }
+            }
             let (minplan, steps) = if is_crash_class(&class) {
                 let mut test = |p: &Plan| outcome_class(&run_plan_in_child_caps(p, Duration::from_secs(120), Some(256)));
                 // confirm first
